@@ -74,6 +74,9 @@ func main() {
 			}
 		}()
 		def.run(c)
+		if c.Tier == "thorough" && os.Getenv("VERIF_NO_SELFVAL") == "" {
+			selfValidate(c)
+		}
 	}()
 	os.Exit(c.Finish())
 }
